@@ -76,6 +76,12 @@ var cbkProfiles = []cbkProfile{
 		k.set(vpCbBeforeRecheck, 500, 200*time.Microsecond, 70)
 		k.set(vpFillBeforeCbCAS, 300, 80*time.Microsecond, 60)
 		k.set(vpFillAdded, 200, 50*time.Microsecond, 50)
+		k.set(vpStreamCloseLoaded, 300, 80*time.Microsecond, 60)
+	}},
+	// a local Close held between its state load and its CAS while arrivals start callbacks
+	{"close-loaded", func(k *ctl) {
+		k.set(vpStreamCloseLoaded, 500, 100*time.Microsecond, 80)
+		k.set(vpFillBeforeCbCAS, 200, 50*time.Microsecond, 50)
 	}},
 }
 
@@ -142,8 +148,12 @@ type cbkStream struct {
 	blockedReads int64
 	seqBroken    int32
 	growTrigger  int32         // the last OnData invocation consumed bytes yet returned with Len >= Len at its entry (its blocking read pulled more in)
-	gate         chan struct{} // directed case: the first OnData parks here
+	gate         chan struct{} // directed cases: one OnData invocation parks here
 	gateIn       chan struct{}
+	gateMode     string       // x11 | x17 | x18
+	gateArmed    int32        // the next OnData invocation parks (atomic)
+	lastTakeErr  atomic.Value // cbkErr: error of the last failed ReadBytes inside OnData
+	quietTimeout bool         // the directed X18 case judges a blocked read through Close(), not through the read watchdog
 }
 
 func (s *cbkStream) recvStream() *Stream {
@@ -176,8 +186,14 @@ type cbkExec struct {
 	stuck       bool
 	abaSuspects int64
 	timeouts    int64
-	zombies     []*Stream
-	allSent     int32
+
+	// directed close-window cases
+	parkArmed    *int32
+	closerParked chan struct{}
+	closerGo     chan struct{}
+	closerCASed  chan struct{}
+	zombies      []*Stream
+	allSent      int32
 
 	arrivedDuringCb int64
 	arrivals        int64
@@ -261,17 +277,25 @@ func (x *cbkExec) waitServer(s *cbkStream, timeout time.Duration) bool {
 // ---------------------------------------------------------------------------------------------
 // the recorder: StreamCallbacks of the receiving end
 
+type cbkErr struct{ e error }
+
+func (s *cbkStream) takeErr() error {
+	v, _ := s.lastTakeErr.Load().(cbkErr)
+	return v.e
+}
+
 func (s *cbkStream) take(r BufferReader, n int) bool {
 	if n <= 0 {
 		return true
 	}
 	buf, err := r.ReadBytes(n)
 	if err != nil {
+		s.lastTakeErr.Store(cbkErr{err})
 		// only a blocking read (n > Len) can fail: the stream was closed under it - or the watchdog deadline passed
-		if err == ErrTimeout {
+		if err == ErrTimeout && !s.quietTimeout {
 			atomic.AddInt64(&s.x.timeouts, 1)
 			st := s.recvStream()
-			s.x.inconclusive("stream %d (%s): a blocking ReadBytes(%d) inside OnData for bytes the writer had already flushed did not return within the %v watchdog (receiver state %d, local Close called/armed: %v, Close returned: %v) - a local close discards the bytes in flight while its completion waits for this OnData",
+			s.x.inconclusive("stream %d (%s): a blocking ReadBytes(%d) inside OnData for bytes the writer had already flushed did not return within the %v watchdog (receiver state %d, local Close called/armed: %v, Close returned: %v)",
 				s.idx, s.plan.Dir, n, cbkReadWatchdog, st.getStreamState(), atomic.LoadInt32(&s.closeCalled) == 1 || atomic.LoadInt32(&s.closeArmed) == 2, atomic.LoadInt32(&s.closeRet) == 1)
 		}
 		return false
@@ -335,15 +359,33 @@ func (s *cbkStream) OnData(r BufferReader) {
 			atomic.StoreInt32(&s.growTrigger, 1)
 		}
 	}()
-	if s.gate != nil && atomic.LoadInt64(&s.nData) == 1 {
+	if s.gate != nil && atomic.CompareAndSwapInt32(&s.gateArmed, 1, 2) {
+		if s.gateMode == "x17" {
+			s.take(r, 1) // the front slice of the receive buffer is in use by this invocation from here on
+		}
 		close(s.gateIn)
 		select {
 		case <-s.gate:
-		case <-time.After(30 * time.Second):
+		case <-time.After(60 * time.Second):
 		}
-		s.recvStream().SetReadDeadline(time.Now().Add(cbkReadWatchdog))
-		if !s.take(r, avail+5) { // a blocking read for 5 bytes more than were buffered at entry
-			s.take(r, r.Len())
+		switch s.gateMode {
+		case "x11":
+			s.recvStream().SetReadDeadline(time.Now().Add(cbkReadWatchdog))
+			if !s.take(r, avail+5) { // a blocking read for 5 bytes more than were buffered at entry
+				s.take(r, r.Len())
+			}
+		case "x17":
+			// Len() said avail bytes when this invocation was entered (stream open): they must still be readable and intact now
+			if !s.take(r, avail-1) {
+				err := s.takeErr()
+				x.violate(s, "directed close-window (X17): OnData was entered with Len()=%d on an open stream; while it was running the stream was closed locally and one more message arrived; "+
+					"reading the bytes it had been offered then failed with %v (receive buffer recycled under the running OnData), Len() now %d", avail, err, r.Len())
+			}
+		case "x18":
+			s.recvStream().SetReadDeadline(time.Now().Add(30 * time.Second)) // far beyond the 10 s bound of the verdict; only stops a broken tree from hanging for good
+			if !s.take(r, avail+200) {                                       // the rest would be message 2, which a closed stream never delivers
+				s.take(r, r.Len())
+			}
 		}
 		return
 	}
@@ -603,6 +645,135 @@ func (x *cbkExec) directedBlockingRead(wd time.Duration) {
 	}
 }
 
+// directedCloseWindow: a user goroutine's Close() on the callback end is held between close()'s state load and its CAS
+// (hook vpStreamCloseLoaded) while a message arrives and the callback goroutine enters OnData on the still open stream;
+// then the closer goes on (CAS -> closed, waits for the callback goroutine), one more message arrives and is handled by the
+// closed-stream branch of fillDataToReadBuffer while OnData is still inside.
+//
+//	x17: OnData then reads the bytes it had been offered at its entry: they must be readable and intact;
+//	x18: OnData asks for more than it was offered (the rest is the dropped message): the read must end and Close() must return.
+func (x *cbkExec) directedCloseWindow(wd time.Duration) {
+	s := x.strs[0]
+	mode := s.gateMode
+	send := func(n int) bool {
+		buf := make([]byte, n)
+		fillKeyed(buf, s.key, s.sendOff)
+		s.cl.BufferWriter().WriteBytes(buf)
+		if err := s.cl.Flush(false); err != nil {
+			x.inconclusive("directed close-window: flush: %v", err)
+			return false
+		}
+		s.sendOff += uint64(n)
+		atomic.AddUint64(&s.flushedOK, uint64(n))
+		return true
+	}
+	released := false
+	release := func() {
+		if !released {
+			released = true
+			close(s.gate)
+		}
+	}
+	closerDone := make(chan struct{})
+	closerStarted := false
+	defer func() {
+		// never leave with parked goroutines
+		if atomic.LoadInt32(x.parkArmed) < 3 {
+			select {
+			case <-x.closerGo:
+			default:
+				close(x.closerGo)
+			}
+		}
+		release()
+		if closerStarted {
+			select {
+			case <-closerDone:
+			case <-time.After(45 * time.Second):
+				x.stuck = true
+			}
+		}
+	}()
+	// message 0 creates the server side stream and is consumed by an ordinary OnData
+	if !send(20) || !x.waitServer(s, wd) {
+		x.inconclusive("directed close-window: server side stream did not appear")
+		return
+	}
+	if !waitUntil(wd, func() bool { return atomic.LoadUint64(&s.consumed) == 20 }) || !x.settle(wd) {
+		x.inconclusive("directed close-window: set-up did not settle")
+		return
+	}
+	// the closer: no callback is running now, so Close() takes the direct path into close()
+	atomic.StoreInt32(x.parkArmed, 1)
+	closerStarted = true
+	go func() {
+		defer close(closerDone)
+		atomic.StoreInt32(&s.closeCalled, 1)
+		_ = s.sv.Close()
+		atomic.StoreInt32(&s.closeRet, 1)
+	}()
+	select {
+	case <-x.closerParked:
+	case <-time.After(wd):
+		x.inconclusive("directed close-window: Close() did not reach vpStreamCloseLoaded with state opened")
+		return
+	}
+	// message 1: the callback goroutine starts and enters OnData on the still open stream
+	atomic.StoreInt32(&s.gateArmed, 1)
+	if !send(3000) {
+		return
+	}
+	select {
+	case <-s.gateIn:
+	case <-time.After(wd):
+		x.inconclusive("directed close-window: OnData was not invoked for message 1")
+		return
+	}
+	// the closer goes on: CAS -> closed, then it waits for the callback goroutine
+	close(x.closerGo)
+	select {
+	case <-x.closerCASed:
+	case <-time.After(wd):
+		x.inconclusive("directed close-window: close() did not pass its CAS")
+		return
+	}
+	// message 2 meets a closed stream that is still in the session's table while OnData is inside
+	if !send(500) {
+		return
+	}
+	if !x.p.quiesce(wd) || !fenceN(2) {
+		x.inconclusive("directed close-window: pair did not settle after message 2")
+		return
+	}
+	cn := startCanary()
+	defer cn.close()
+	release()
+	atomic.AddInt64(&x.checksOpen, 1)
+	select {
+	case <-closerDone:
+	case <-time.After(10 * time.Second):
+		if cn.healthy(500 * time.Millisecond) {
+			st := s.sv
+			x.violate(s, "directed close-window (%s): Close() of the callback end did not return within 10 s (scheduler canary healthy): OnData is still inside (in OnData: %d, callbackInProcess %d, stream state %d) - "+
+				"a blocked read inside OnData is not woken by the close that waits for it", mode, atomic.LoadInt32(&s.inData), atomic.LoadUint32(&st.callbackInProcess), st.getStreamState())
+		} else {
+			x.inconclusive("directed close-window: Close() watchdog, scheduler canary unhealthy")
+		}
+		return
+	}
+	if mode == "x18" {
+		if err := s.takeErr(); err == nil {
+			// the read was satisfied: the tree delivered message 2 to a closing stream - not what is judged here
+			x.c.count("directed x18: blocking read was satisfied instead of failing", 1)
+		} else if !isClosedStreamErr(err) {
+			x.violate(s, "directed close-window (x18): the blocking ReadBytes inside OnData ended with %q, not with a closed-stream error", err)
+		}
+	}
+	if got := atomic.LoadUint64(&s.consumed); got < 20+3000 {
+		x.violate(s, "directed close-window (%s): OnData was entered with 3000 bytes buffered on an open stream but could only consume %d of them", mode, got-20)
+	}
+}
+
 func runCbkCase(c *checkCtx, cs cbkCase, race bool) *cbkExec {
 	x := &cbkExec{c: c, cs: cs, byID: map[uint32]*cbkStream{}}
 	x.cond = sync.NewCond(&x.mu)
@@ -631,6 +802,28 @@ func runCbkCase(c *checkCtx, cs cbkCase, race bool) *cbkExec {
 			atomic.AddInt64(&x.arrivedDuringCb, 1)
 		}
 	})
+	if cs.Directed == "close-window-x17" || cs.Directed == "close-window-x18" {
+		x.parkArmed, x.closerParked, x.closerGo, x.closerCASed = new(int32), make(chan struct{}), make(chan struct{}), make(chan struct{})
+		x.k.on(vpStreamCloseLoaded, func(obj interface{}, n int64) {
+			// the user goroutine's close() has loaded state "opened" and is about to CAS: hold it there
+			st, _ := obj.(*Stream)
+			if st == nil || n != int64(streamOpened) || atomic.LoadInt32(x.parkArmed) != 1 || st != x.strs[0].sv {
+				return
+			}
+			if atomic.CompareAndSwapInt32(x.parkArmed, 1, 2) {
+				close(x.closerParked)
+				select {
+				case <-x.closerGo:
+				case <-time.After(60 * time.Second):
+				}
+			}
+		})
+		x.k.on(vpStreamCloseCASed, func(obj interface{}, n int64) {
+			if st, _ := obj.(*Stream); st != nil && atomic.LoadInt32(x.parkArmed) == 2 && st == x.strs[0].sv && atomic.CompareAndSwapInt32(x.parkArmed, 2, 3) {
+				close(x.closerCASed)
+			}
+		})
+	}
 	x.k.install()
 	cbkResetAbaDetector()
 	defer func() {
@@ -667,9 +860,14 @@ func runCbkCase(c *checkCtx, cs cbkCase, race bool) *cbkExec {
 			return x
 		}
 		s := &cbkStream{x: x, idx: i, id: st.id, cl: st, key: uint64(cs.Idx)<<20 + uint64(st.id), plan: genCbkPlan(rng, cs, budget)}
-		if cs.Directed == "x11-blocking-read" {
+		switch cs.Directed {
+		case "x11-blocking-read":
 			s.plan = cbkStreamPlan{Dir: "c2s", Behaviour: "all", Close: "directed", Planned: 1010, Msgs: 2}
-			s.gate, s.gateIn = make(chan struct{}), make(chan struct{})
+			s.gate, s.gateIn, s.gateMode, s.gateArmed = make(chan struct{}), make(chan struct{}), "x11", 1
+		case "close-window-x17", "close-window-x18":
+			s.plan = cbkStreamPlan{Dir: "c2s", Behaviour: "all", Close: "directed", Planned: 20 + 3000 + 500, Msgs: 3}
+			s.gate, s.gateIn, s.gateMode = make(chan struct{}), make(chan struct{}), cs.Directed[len(cs.Directed)-3:]
+			s.quietTimeout = true
 		}
 		s.rng = rand.New(rand.NewSource(rng.Int63()))
 		if s.plan.Close == "local-ondata" {
@@ -701,8 +899,12 @@ func runCbkCase(c *checkCtx, cs cbkCase, race bool) *cbkExec {
 		}
 	}
 
-	if cs.Directed == "x11-blocking-read" {
+	switch cs.Directed {
+	case "x11-blocking-read":
 		x.directedBlockingRead(wd)
+		return x
+	case "close-window-x17", "close-window-x18":
+		x.directedCloseWindow(wd)
 		return x
 	}
 
@@ -853,15 +1055,20 @@ func checkCallback(c *checkCtx) {
 	var hits [vpPointCount]uint64
 	samples := 0
 	ownViolations := 0
-	for i := -1; i < n; i++ {
+	directed := []string{"x11-blocking-read", "close-window-x17", "close-window-x18"}
+	for i := -len(directed); i < n; i++ {
 		var cs cbkCase
 		if i >= 0 {
 			cs = genCbkCase(c, i)
 		} else {
-			cs = cbkCase{Idx: 999999, Streams: 1, Rounds: 1, Profile: "natural", Seed: c.seed, Directed: "x11-blocking-read"}
+			cs = cbkCase{Idx: 999999 + i + len(directed), Streams: 1, Rounds: 1, Profile: "natural", Seed: c.seed, Directed: directed[i+len(directed)]}
 		}
 		x := runCbkCase(c, cs, false)
 		name := fmt.Sprintf("cb-%d", cs.Idx)
+		if cs.Directed != "" {
+			name = "directed-" + cs.Directed
+			c.count("directed cases run", 1)
+		}
 		if x.k != nil {
 			for _, pt := range append(append([]int{}, cbPoints...), fillPoints...) {
 				hits[pt] += x.k.hitCount(pt)
